@@ -120,6 +120,9 @@ func checkC03(c *Ctx) *report.Result {
 			c.checkOrder(r, name, where, doc, row)
 		}
 	}
+	// the cycle an access falls in is its position in the row only if the scheduler runs every row entry exactly once, in order
+	r.Rule("M-step", "scheduler lemmas of C02 (S1 one entry per step, S2 every fetch installs this opcode's row and predicate, S3 finished predicate, S6 fetch gate) re-stated: a row entry that is skipped or cut off is an access that does not happen in its documented cycle")
+	adopt(r, c.sibling("C02"), map[string]string{"S1": "M-step", "S2": "M-step", "S3": "M-step", "S6": "M-step", "L-cond": "M-step"}, "an instruction cut short or stretched by the scheduler performs its accesses in other cycles, or not at all")
 	return r
 }
 
